@@ -87,8 +87,8 @@ Section Pure.
     Qed.
     Lemma Slocked_eval sp ref T P : P_ref <> 0 -> 0 < P / P_ref ->
       Slocked sp ref T P =
-      Ok (Some (match ref with
-                | Pg => S0 + JJ sp T_ref T - Rg * ln (P / P_ref)     (* `if phase_ref == 'g'`, _chemical.py:1790 *)
+      Ok (Some (match sp with
+                | Pg => S0 + JJ sp T_ref T - Rg * ln (P / P_ref)     (* `if single_phase == 'g'` *)
                 | _ => S0 + JJ sp T_ref T
                 end)).
     Proof.
